@@ -288,9 +288,21 @@ Inductive hop :=
 | HRemove (sid : N)                                (* removeSession *)
 | HLookup (r : role) (id : bytes)                  (* GetSessionByResumeId / GetSessionByPublicId *)
 | HResume (id : bytes)                             (* hello with resumeid *)
-| HDecode (r : role) (id : bytes).                 (* decodePrivateSessionId / decodePublicSessionId: the hub's
+| HDecode (r : role) (id : bytes)                  (* decodePrivateSessionId / decodePublicSessionId: the hub's
                                                       decoder of a role, as its callers (lookups, the resume branch
                                                       of processHello, recipients of messages) use it *)
+(* the other request path that makes ids, and the cache operations by themselves
+   (hub.go has exactly these writers of the decode caches: processRegister calls setDecodedSessionId
+   for both new ids (HRegister), removeSession calls invalidateSessionId for both ids of the session
+   that ends -- bye, removesession, a replaced or orphaned virtual session, expiry -- (HRemove), and
+   the two decoders store what the codec answered (HDecode); processInternalMsg "addsession" writes
+   nothing to the caches) *)
+| HAddSession (d : data) (ts1 iv1 ts2 iv2 : bytes) (* processInternalMsg, addsession: mint both ids of the virtual
+                                                      session and store it; the caches are not touched *)
+| HPrefill (r : role) (id : bytes) (d : data)      (* setDecodedSessionId(id, name of r, d) *)
+| HInvalidate (r : role) (id : bytes)              (* invalidateSessionId(id, name of r) *)
+| HCodec (r : role) (id : bytes).                  (* hub.cookie.DecodePrivate / DecodePublic: the codec the hub holds,
+                                                      asked directly (no cache) *)
 
 Inductive hout :=
 | HIds (priv pub : bytes)      (* the ids handed to the client *)
@@ -332,6 +344,20 @@ Definition hub_step (ks : keyset) (h : hub) (o : hop) : hub * hout :=
   | HDecode r id =>
       let '(h', o) := hub_decode ks r h id in
       (h', match o with Some d => HData d | None => HNoData end)
+  | HAddSession d ts1 iv1 ts2 iv2 =>
+      match encode_private ks ts1 iv1 d with
+      | Err _ => (h, HFailed)
+      | Ok priv =>
+          match encode_public ks ts2 iv2 d with
+          | Err _ => (h, HFailed)
+          | Ok pub =>
+              ({| caches := caches h; csize := csize h;
+                  sessions := (sid_of O d, (priv, pub)) :: session_del (sid_of O d) (sessions h) |}, HIds priv pub)
+          end
+      end
+  | HPrefill r id d => (hub_set_decoded r h id d, HNone)
+  | HInvalidate r id => (hub_invalidate r h id, HNone)
+  | HCodec r id => (h, match decode r ks id with Ok d => HData d | Err _ => HNoData end)
   end.
 
 End Model.
